@@ -22,6 +22,7 @@ import (
 	"os"
 	"path/filepath"
 	"sort"
+	"strings"
 	"sync"
 	"sync/atomic"
 	"testing"
@@ -1231,9 +1232,17 @@ func TestDriver(t *testing.T) {
 	}
 	nRandom := vh.EnvInt("VERIF_RANDOM", 0)
 	rng := vh.Rand()
+	type combo struct{ r, c int }
+	var combos []combo
+	for _, part := range strings.Split(vh.Env("VERIF_COMBOS", "2,1;2,2;1,2"), ";") {
+		var c combo
+		if _, err := fmt.Sscanf(part, "%d,%d", &c.r, &c.c); err == nil {
+			combos = append(combos, c)
+		}
+	}
 	for i := 0; i < nRandom; i++ {
-		conc := 1 + rng.Intn(2)
-		scenarios = append(scenarios, scenario{Name: fmt.Sprintf("random-%d", i), Range: 1 + rng.Intn(3), Conc: conc,
+		cb := combos[rng.Intn(len(combos))]
+		scenarios = append(scenarios, scenario{Name: fmt.Sprintf("random-%d", i), Range: cb.r, Conc: cb.c,
 			Bg: rng.Intn(3) == 0, Random: 10 + rng.Intn(40), MaxH: 4 + rng.Intn(8)})
 	}
 	// one trace file per (range, conc): the trace specification has them as constants
